@@ -20,7 +20,7 @@
  *                                     may be listed twice), each -> ts_decaps -> sink k
  *   addpid pid=<n> / delpid pid=<n>   (mode F)
  *   mode Q sid=<id> hdr=<n>           ts_pes_encaps -> ts_pes_decaps -> sink
- *   mode E pid= sid= cc= pcrint= hdr= octetrate= tbrate=
+ *   mode E pid= sid= cc= pcrint= hdr= octetrate= tbrate= align=
  *                                     ts_encaps -(splice)-> parser -> ts_decaps
  *                                     -> ts_pes_decaps -> sink
  *   pkt  [size= sync= tei= pusi= pid= scr= afc= cc= af= disc= rai= pcrf=
@@ -604,7 +604,10 @@ static void cmd_mode(int nt, char **tok)
             ubase_assert(uref_ts_flow_set_tb_rate(fd, argu(nt, tok, "tbrate", 50000)));
             ubase_assert(uref_ts_flow_set_pid(fd, pid));
             ubase_assert(uref_ts_flow_set_pes_id(fd, argn(nt, tok, "sid", 224)));
-            ubase_assert(uref_ts_flow_set_pes_alignment(fd));
+            /* align=0: the access units are not aligned with the PES packets (what upipe_ts_mux selects for
+             * audio): the octets of an access unit that do not fill a TS packet travel with the next one */
+            if (argn(nt, tok, "align", 1))
+                ubase_assert(uref_ts_flow_set_pes_alignment(fd));
             if (argn(nt, tok, "hdr", 0) > 0)
                 ubase_assert(uref_ts_flow_set_pes_header(fd, argn(nt, tok, "hdr", 0)));
             ubase_assert(upipe_set_flow_def(encaps, fd));
@@ -613,7 +616,7 @@ static void cmd_mode(int nt, char **tok)
                 ubase_assert(upipe_ts_mux_set_pcr_interval(encaps, pcrint));
             ubase_assert(upipe_ts_mux_set_cc(encaps, (unsigned int)cc));
             e_cr = pcrint != 0;
-            printf("mode m=E pid=%lld cc=%lld pcrint=%" PRIu64 "\n", pid, cc, pcrint);
+            printf("mode m=E pid=%lld cc=%lld pcrint=%" PRIu64 " al=%lld\n", pid, cc, pcrint, argn(nt, tok, "align", 1));
             break;
         }
         default:
